@@ -177,6 +177,12 @@ func (i *interpreter) blockUntil(cond func() bool, why string) {
 	for {
 		next := i.pickNext(cur, why)
 		if next == nil {
+			if cur.daemon && cur.id != 0 && s.threads[0].done {
+				// a background thread with nothing to wait for: park until killed
+				<-cur.wake
+				i.checkKilled()
+				continue
+			}
 			cur.canRun = nil
 			i.deadlocked()
 			return
